@@ -147,6 +147,37 @@ func TestC12Seq(t *testing.T) {
 			}
 		}
 		acts["readall2"] = acts["readall"]
+		// the last block under an index block holds data, the file is larger but has nothing beyond; cut below that
+		// block, grow beyond it again, read it: zeros
+		acts["lastblock_under_index"] = func(t *rapid.T) {
+			f := file(t)
+			e := uint64(pick(t, []int{7, 519, 519, 1031}, "edgeblock"))
+			if int(e/512)+8 > room() {
+				t.Skip("no room")
+			}
+			sz := (e + 1 + uint64(rapid.IntRange(1, 200).Draw(t, "beyond"))) * BlockSize
+			if f.Size < sz {
+				judge(t, x.Setattr(LiveRef(f), &sz, false))
+			}
+			if cut || !x.LastOK {
+				return
+			}
+			judge(t, x.Write(LiveRef(f), e*BlockSize+uint64(pick(t, []int{0, 1, 100}, "in")), patternData(g.nextTag(), 3000), 3000, pick(t, g.Cfg.Stable, "stable")))
+			if cut {
+				return
+			}
+			low := uint64(rapid.Uint64Range(0, e).Draw(t, "cutblocks"))*BlockSize + uint64(pick(t, []int{0, 0, 1, 4000}, "cutin"))
+			judge(t, x.Setattr(LiveRef(f), &low, false))
+			if cut {
+				return
+			}
+			judge(t, x.Setattr(LiveRef(f), &sz, false))
+			if cut {
+				return
+			}
+			judge(t, x.Read(LiveRef(f), e*BlockSize, 2*BlockSize))
+			regrown = true
+		}
 		// a file too large to be freed in one transaction is cut (mostly to exactly 0) and the server stops with the
 		// shrinker interrupted; the file is then removed or renamed over, the server restarts, and new files (one of
 		// them gets the inode number) are grown and read: zeros only
@@ -183,6 +214,23 @@ func TestC12Seq(t *testing.T) {
 					return
 				}
 				St.Class("big_file_cut_and_server_stopped_with_the_shrinker_interrupted")
+			}
+			if rapid.IntRange(0, 2).Draw(t, "keep") == 0 {
+				// the file stays: a WRITE across its end, growth, and a look at everything
+				off := f.Size
+				if off > 96 {
+					off -= 96
+				}
+				err := x.Write(LiveRef(f), off, patternData(g.nextTag(), 5000), 5000, pick(t, g.Cfg.Stable, "stable"))
+				if err == nil {
+					gsz := f.Size + uint64(rapid.IntRange(1, 8).Draw(t, "growblocks"))*BlockSize
+					err = x.Setattr(LiveRef(f), &gsz, false)
+				}
+				for o := uint64(0); err == nil && o < f.Size; o += 16 * BlockSize {
+					err = x.Read(LiveRef(f), o, 16*BlockSize)
+				}
+				judge(t, err)
+				return
 			}
 			var err error
 			if rapid.IntRange(0, 2).Draw(t, "how") == 0 {
